@@ -13,6 +13,7 @@ import (
 	"io"
 	nh "net/http"
 	"net/http/httptest"
+	"os"
 	"sort"
 	"strings"
 	"time"
@@ -450,12 +451,49 @@ func seqWorker(w *pool.W, arg json.RawMessage) {
 
 type mwShard struct {
 	Stacks [][]int `json:"stacks"` // priorities in registration order
+	Kinds  bool    `json:"kinds,omitempty"` // also every non-zero closure / class-instance mask
 }
 
-func mwScript(prios []int, short int) string {
+// stack middlewares registered as class instances (bit i of kinds set) use this class
+const mwStackClassSrc = `class MwS {
+  public $i = 0;
+  public $stop = false;
+  public function __construct($i, $stop) { $this->i = $i; $this->stop = $stop; }
+  public function handle($r, $w, $next) {
+    echo "<" . $this->i;
+    if ($this->stop) { echo "!" . $this->i; return; }
+    $next($r, $w);
+    echo ">" . $this->i;
+  }
+}
+`
+
+func kindString(n int, kinds uint) string {
+	b := make([]byte, n)
+	for i := range b {
+		b[i] = 'c'
+		if kinds&(1<<uint(i)) != 0 {
+			b[i] = 'k'
+		}
+	}
+	return string(b)
+}
+
+func mwScript(prios []int, short int, kinds uint) string {
 	var sb strings.Builder
+	if kinds != 0 {
+		sb.WriteString(mwStackClassSrc)
+	}
 	sb.WriteString("$server = new Net\\Http\\Server('127.0.0.1', 0);\n")
 	for i, p := range prios {
+		if kinds&(1<<uint(i)) != 0 {
+			stop := "false"
+			if i == short {
+				stop = "true"
+			}
+			fmt.Fprintf(&sb, "$server->middleware(new MwS(%d, %s), %d);\n", i, stop, p)
+			continue
+		}
 		if i == short {
 			fmt.Fprintf(&sb, "$server->middleware(function($r, $w, $next) { echo \"<%d\"; echo \"!%d\"; }, %d);\n", i, i, p)
 		} else {
@@ -491,8 +529,8 @@ func mwExpect(prios []int, short int) string {
 	return s + strings.Join(out, "")
 }
 
-func mwRun(prios []int, short int) (string, string) {
-	res, s := runner.RunKeep(mwScript(prios, short), runner.Opts{Setup: func(vm data.VM) { ohttp.Load(vm) }})
+func mwRun(prios []int, short int, kinds uint) (string, string) {
+	res, s := runner.RunKeep(mwScript(prios, short, kinds), runner.Opts{Setup: func(vm data.VM) { ohttp.Load(vm) }})
 	defer s.Close()
 	if res.Kind != "ok" {
 		return "", "define:" + res.Kind + ":" + res.Msg + res.PanicKey
@@ -523,22 +561,37 @@ func mwWorker(w *pool.W, arg json.RawMessage) {
 		if len(st) > 6 {
 			maxShort = 0 // large stacks: order only
 		}
-		for short := -1; short < maxShort; short++ {
-			if !w.Item(fmt.Sprint(st, short)) {
-				continue
+		nmask := uint(1)
+		if sh.Kinds && len(st) <= 6 {
+			nmask = 1 << uint(len(st))
+		}
+		for kinds := uint(0); kinds < nmask; kinds++ {
+			if sh.Kinds && kinds == 0 {
+				continue // the all-closure stacks are enumerated by the plain shards
 			}
-			n++
-			exp := mwExpect(st, short)
-			got, err := mwRun(st, short)
-			outcomes[got] = true
-			if err != "" || got != exp {
-				cl := "middleware-order"
-				if err != "" {
-					cl = "middleware-error"
+			for short := -1; short < maxShort; short++ {
+				id := fmt.Sprint(st, short)
+				if kinds != 0 {
+					id += " " + kindString(len(st), kinds)
 				}
-				// key: priorities normalised to ranks
-				key := fmt.Sprintf("%s:prios=%v short=%d", cl, st, short)
-				w.Emit(rec{Kind: "fail", Key: key, Clause: cl, Size: len(st)*10 + short + 1, Case: map[string]any{"kind": "mw", "prios": st, "short": short, "script": mwScript(st, short)}, Detail: fmt.Sprintf("expected %q\nobserved %q %s", exp, got, err)})
+				if !w.Item(id) {
+					continue
+				}
+				n++
+				exp := mwExpect(st, short)
+				got, err := mwRun(st, short, kinds)
+				outcomes[got] = true
+				if err != "" || got != exp {
+					cl := "middleware-order"
+					if err != "" {
+						cl = "middleware-error"
+					}
+					key := fmt.Sprintf("%s:prios=%v short=%d", cl, st, short)
+					if kinds != 0 {
+						key += " kinds=" + kindString(len(st), kinds)
+					}
+					w.Emit(rec{Kind: "fail", Key: key, Clause: cl, Size: len(st)*10 + short + 1, Case: map[string]any{"kind": "mw", "prios": st, "short": short, "kinds": kinds, "script": mwScript(st, short, kinds)}, Detail: fmt.Sprintf("expected %q\nobserved %q %s", exp, got, err)})
+				}
 			}
 		}
 	}
@@ -660,7 +713,7 @@ func groupWorker(w *pool.W, arg json.RawMessage) {
 
 func main() {
 	if pool.IsWorker() {
-		pool.Serve(map[string]pool.Handler{"seq": seqWorker, "mw": mwWorker, "group": groupWorker})
+		pool.Serve(map[string]pool.Handler{"seq": seqWorker, "mw": mwWorker, "group": groupWorker, "hist": histWorker})
 	}
 	c := ev.New("C13")
 	defer runner.Cleanup()
@@ -736,11 +789,42 @@ func main() {
 		}
 		shards = append(shards, pool.Shard{Kind: "mw", Arg: mwShard{Stacks: stacks[i:j]}})
 	}
+	// the same stacks with every non-empty choice of which entries are class instances (handle()
+	// method) instead of closures: the two registration branches are separate code
+	kindStackMax := 4
+	if !c.Quick() {
+		kindStackMax = 5
+	}
+	nkind := 0
+	for i := 0; i < len(stacks); i += 8 {
+		var part [][]int
+		for _, st := range stacks[i:min(i+8, len(stacks))] {
+			if len(st) >= 1 && len(st) <= kindStackMax {
+				part = append(part, st)
+				nkind += (1<<uint(len(st)) - 1) * (len(st) + 1)
+			}
+		}
+		if len(part) > 0 {
+			shards = append(shards, pool.Shard{Kind: "mw", Arg: mwShard{Stacks: part, Kinds: true}})
+		}
+	}
+	c.Set("stacks_with_class_instance_entries", nkind)
+	// configuration histories (history.go)
+	hb := histBound{MaxLen: 5, MaxObj: 3, NPrio: 2, NForm: 3, MaxKind: 1}
+	if !c.Quick() {
+		hb = histBound{MaxLen: 6, MaxObj: 3, NPrio: 3, NForm: 4, MaxKind: 1}
+	}
+	staticDir, derr := makeStaticDir()
+	if derr != nil {
+		c.HarnessError("static dir: %v", derr)
+	}
+	hshards := histShards(hb, staticDir, 3)
+	shards = append(shards, hshards...)
 	// sibling groups inheriting 0..12 parent middlewares (slice capacities differ with the count)
 	for p := 0; p <= 12; p++ {
 		shards = append(shards, pool.Shard{Kind: "group", Arg: groupShard{Parents: []int{p}}})
 	}
-	var total int64
+	var total, histN, histRoutes, histUnreduced int64
 	outcomes := map[string]bool{}
 	pool.Run(shards, pool.Options{}, func(si int, rb json.RawMessage) {
 		var r rec
@@ -758,10 +842,17 @@ func main() {
 			c.Fail(r.Key, r.Clause, r.Size, r.Case, r.Detail)
 		case "sample":
 			c.Sample(r.Case)
+		case "histcount":
+			histRoutes += r.N
+			histUnreduced += int64(r.Size)
+		}
+		if r.Kind == "count" && shards[si].Kind == "hist" {
+			histN += r.N
 		}
 	}, func(d pool.Death) {
 		c.Fail("worker-death:"+runner.FatalFrame(d.Stderr), "no-crash", 0, map[string]any{"item": d.Item, "reason": d.Reason}, d.Stderr)
 	})
+	os.RemoveAll(staticDir)
 	c.Set("max_sequence_length", maxLen)
 	c.Set("alphabet", func() []string {
 		var a []string
@@ -771,6 +862,16 @@ func main() {
 		return a
 	}())
 	c.Set("middleware_stacks", len(stacks))
+	c.Set("config_histories", histN)
+	c.Set("config_history_route_requests", histRoutes)
+	c.Set("config_history_bound", hb)
+	if histUnreduced > 0 {
+		c.Set("config_history_failures_not_reduced", histUnreduced)
+	}
+	if histN < 1000 {
+		c.HarnessError("vacuous: only %d configuration histories", histN)
+	}
+	c.Assume("configuration histories: a middleware registered after a route (on the route's object or an ancestor) may or may not apply to it (statement and docs are silent; origami snapshots at registration) but must sit at its priority place if it runs; how nested group prefixes compose is not judged")
 	c.Assume("httptest.ResponseRecorder stands for the connection: headers are snapshotted at the first WriteHeader like net/http does")
 	c.Assume("sequences longer than the bound and response methods outside the alphabet (view, file, success, error, format) are not explored")
 	if len(outcomes) < 10 {
@@ -785,14 +886,27 @@ func replay(c *ev.Check) {
 		Ops   []string `json:"ops"`
 		Prios []int    `json:"prios"`
 		Short int      `json:"short"`
+		Kinds uint     `json:"kinds"`
+		Hist  []hop    `json:"hist"`
 	}
 	key, err := ev.LoadReplay(c.Replay, &cs)
 	if err != nil {
 		fmt.Println("replay:", err)
 		return
 	}
-	if cs.Kind == "mw" {
-		got, e := mwRun(cs.Prios, cs.Short)
+	if cs.Kind == "hist" {
+		dir, derr := makeStaticDir()
+		if derr != nil {
+			c.HarnessError("static dir: %v", derr)
+		}
+		cl, detail, _ := histClause(cs.Hist, dir)
+		os.RemoveAll(dir)
+		fmt.Printf("history %s\n%s\n%s\n", histString(cs.Hist), histScript(cs.Hist, dir), detail)
+		if cl != "" {
+			c.Fail(key, cl, 0, cs, "replayed: "+detail)
+		}
+	} else if cs.Kind == "mw" {
+		got, e := mwRun(cs.Prios, cs.Short, cs.Kinds)
 		exp := mwExpect(cs.Prios, cs.Short)
 		fmt.Printf("expected %q\nobserved %q %s\n", exp, got, e)
 		if got != exp || e != "" {
